@@ -3,23 +3,15 @@
 //
 //  * fullpacket / onepacket: exact result slices (pointer and length), header bytes, the REAL
 //    constant 16_777_215, input length symbolic up to 2^40 with lazy contents -> complete proofs.
-//  * packet: composes the two through nom's fold_many0/pair/map and never mentions the constant
-//    itself. It is verified with `fullpacket` replaced (kani::stub) by a function that implements
-//    exactly the contract proved above with the chunk size abstracted to K = 3, for up to 3
-//    continuation fragments -> BOUNDED in fragment count (DESIGN.md C01); beyond that the seam
-//    rests on fold_many0 being a fold.
+//  * packet: composes the two through nom's fold_many0/pair/map. CBMC could not decide the composed
+//    function within this sandbox's memory (see design-spikes/k1_packet_kani_attempt.rs); its contract
+//    is checked by the BOUNDED native stand-in /verif/native/n1_packet.rs on real-size fragments.
 //
 //@ group k1_frames
 //@ inject src/packet.rs
 //@ default-clause C20.packet.nopanic
 //@ harness k1_fullpacket tier=quick kind=complete fn=src/packet.rs::fullpacket
 //@ harness k1_onepacket  tier=quick kind=complete fn=src/packet.rs::onepacket
-//@ harness k1_packet_f2_inorder  tier=quick kind=bounded bound=at-most-2-continuation-fragments,chunk-size-abstracted-to-2,sequence-ids-7-8-9 fn=src/packet.rs::packet
-//@ harness k1_packet_f2_wrap     tier=quick kind=bounded bound=at-most-2-continuation-fragments,chunk-size-abstracted-to-2,sequence-ids-254-255-0 fn=src/packet.rs::packet
-//@ harness k1_packet_f2_ooo_mid  tier=quick kind=bounded bound=at-most-2-continuation-fragments,chunk-size-abstracted-to-2,sequence-ids-7-9-10 fn=src/packet.rs::packet
-//@ harness k1_packet_f2_ooo_last tier=quick kind=bounded bound=at-most-2-continuation-fragments,chunk-size-abstracted-to-2,sequence-ids-7-8-8 fn=src/packet.rs::packet
-//@ harness k1_packet_f3_inorder  tier=thorough kind=bounded bound=at-most-3-continuation-fragments,chunk-size-abstracted-to-2,sequence-ids-255-0-1-2 fn=src/packet.rs::packet
-//@ harness k1_packet_f3_ooo      tier=thorough kind=bounded bound=at-most-3-continuation-fragments,chunk-size-abstracted-to-2,sequence-ids-3-4-5-7 fn=src/packet.rs::packet
 //@ clause C01.fullpacket   Ok <=> input starts with FF FF FF and holds >= 4+0xFFFFFF bytes; payload = input[4..4+0xFFFFFF] by pointer, seq = input[3], rest = the remainder
 //@ clause C01.onepacket    Ok <=> input holds >= 4+len bytes (len = le24 header); payload = input[4..4+len] by pointer, seq = input[3], rest = the remainder
 //@ clause C01.packet       packet(i) == unframe(i): payload = concatenation of the fragments' payloads byte for byte, consumed length exact, Err(Error) iff incomplete
@@ -90,100 +82,3 @@ pub fn k1_onepacket() {
     }
 }
 
-// ---- packet(): fullpacket replaced by its proved contract with chunk size K
-const K: usize = 2;
-pub fn fullpacket_k(i: &[u8]) -> nom::IResult<&[u8], (u8, &[u8])> {
-    if i.len() >= 4 + K && i[0] == 0xff && i[1] == 0xff && i[2] == 0xff {
-        Ok((&i[4 + K..], (i[3], &i[4..4 + K])))
-    } else {
-        Err(nom::Err::Error(nom::error::Error::new(i, nom::error::ErrorKind::Tag)))
-    }
-}
-
-macro_rules! k1_packet {
-    ($name:ident, $maxf:expr, $tail:expr, $unwind:expr, $ids:expr) => {
-        #[cfg(kani)]
-        #[kani::proof]
-        #[kani::stub(crate::packet::fullpacket, fullpacket_k)]
-        #[kani::stub(std::fmt::format, fmt_stub)]
-        #[kani::unwind($unwind)]
-        pub fn $name() {
-            const MAXF: usize = $maxf; // continuation fragments
-            const TAIL: usize = $tail; // bytes available for the final packet's payload + slack
-            const N: usize = MAXF * (4 + K) + 4 + TAIL;
-            let mut b: [u8; N] = vk::any();
-            let n: usize = vk::any();
-            vk::assume(n <= N);
-            // the sequence-id bytes of the possible fragment headers are fixed per harness (CBMC ran out
-            // of memory with symbolic ids); the harness family covers in-order, wrap-around and
-            // out-of-order patterns. Lengths and payload bytes stay symbolic.
-            let ids: [u8; 4] = $ids;
-            let mut j = 0;
-            while j <= MAXF {
-                b[j * (4 + K) + 3] = ids[j];
-                j += 1;
-            }
-            let i = &b[..n];
-
-            // spec side: unframe with chunk size K (DESIGN.md section 4), at most MAXF full fragments
-            let mut pos = 0usize;
-            let mut nfull = 0usize;
-            let mut in_order = true;
-            let mut prev_seq = 0u8;
-            while nfull < MAXF && n >= pos + 4 + K && b[pos] == 0xff && b[pos + 1] == 0xff && b[pos + 2] == 0xff {
-                if nfull > 0 && b[pos + 3] != prev_seq.wrapping_add(1) {
-                    in_order = false;
-                }
-                prev_seq = b[pos + 3];
-                pos += 4 + K;
-                nfull += 1;
-            }
-            // exclude inputs with more than MAXF complete full fragments (the stated bound)
-            vk::assume(!(n >= pos + 4 + K && b[pos] == 0xff && b[pos + 1] == 0xff && b[pos + 2] == 0xff));
-            let have_last = n >= pos + 4 && {
-                let l = b[pos] as usize + 256 * (b[pos + 1] as usize) + 65536 * (b[pos + 2] as usize);
-                n >= pos + 4 + l
-            };
-            let r = packet(i);
-            if have_last {
-                let l = b[pos] as usize + 256 * (b[pos + 1] as usize) + 65536 * (b[pos + 2] as usize);
-                let last_seq = b[pos + 3];
-                if nfull > 0 && last_seq != prev_seq.wrapping_add(1) {
-                    in_order = false;
-                }
-                vk_cover!(nfull == MAXF, "cover: maximal number of continuation fragments");
-                vk_cover!(nfull == 1 && l == 0, "cover: exact multiple closed by an empty packet");
-                match r {
-                    Ok((rest, (seq, p, ok))) => {
-                        vk_assert!(ok == in_order, "[C20.packet.order] the in-order flag does not say whether the fragment ids were consecutive");
-                        vk_assert!(seq == last_seq, "[C05.packet.lastseq] returned id is not the last fragment's");
-                        vk_assert!(p.len() == nfull * K + l, "[C01.packet] reassembled length differs");
-                        vk_assert!(rest.len() == n - (pos + 4 + l), "[C01.packet] consumed length differs");
-                        let k: usize = vk::any();
-                        vk::assume(k < p.len());
-                        let src = if k < nfull * K { (k / K) * (4 + K) + 4 + (k % K) } else { pos + 4 + (k - nfull * K) };
-                        vk_assert!(p[k] == b[src], "[C01.packet] payload byte differs from its source byte");
-                    }
-                    Err(nom::Err::Failure(_)) => {
-                        vk_assert!(false, "[C01.packet] complete message rejected with Failure");
-                    }
-                    Err(_) => {
-                        vk_assert!(false, "[C01.packet] complete message reported incomplete");
-                    }
-                }
-            } else {
-                vk_cover!(nfull == 1, "cover: incomplete after one fragment");
-                vk_assert!(
-                    matches!(r, Err(nom::Err::Error(_)) | Err(nom::Err::Incomplete(_))),
-                    "[C01.packet] incomplete message must yield a recoverable error"
-                );
-            }
-        }
-    };
-}
-k1_packet!(k1_packet_f2_inorder, 2, 2, 9, [7, 8, 9, 10]);
-k1_packet!(k1_packet_f2_wrap, 2, 2, 9, [254, 255, 0, 1]);
-k1_packet!(k1_packet_f2_ooo_mid, 2, 2, 9, [7, 9, 10, 11]);
-k1_packet!(k1_packet_f2_ooo_last, 2, 2, 9, [7, 8, 8, 0]);
-k1_packet!(k1_packet_f3_inorder, 3, 2, 10, [255, 0, 1, 2]);
-k1_packet!(k1_packet_f3_ooo, 3, 2, 10, [3, 4, 5, 7]);
